@@ -813,10 +813,13 @@ impl Paragraph {
 
     /// Remove the given field from the paragraph.
     pub fn remove(&mut self, key: &str) {
-        for mut entry in self.entries() {
-            if entry.key().as_deref() == Some(key) {
-                entry.detach();
-            }
+        // Collect first: detaching while iterating ends the child iteration after the first match
+        let matching: Vec<Entry> = self
+            .entries()
+            .filter(|e| e.key().as_deref() == Some(key))
+            .collect();
+        for mut entry in matching {
+            entry.detach();
         }
     }
 
